@@ -22,6 +22,7 @@ package api
 
 import (
 	"fmt"
+	"os"
 	"sort"
 	"strings"
 	"testing"
@@ -108,15 +109,22 @@ func c16GenData(t *rapid.T) *c16Data {
 	const hourUs = int64(3600) * 1000000
 	base := int64(1710374400) * 1000000 // 2024-03-14 00:00:00 UTC
 	base += int64(rapid.IntRange(0, 400).Draw(t, "dayoff")) * 24 * hourUs
+	// one column set per measurement NAME (the same text is run under several
+	// headers, so cpu must have the same columns in every database; rows differ)
+	colsOf := map[string][]qCol{}
+	for _, name := range d.Names {
+		cols := []qCol{{"id", "BIGINT"}, {"time", "TIMESTAMPTZ"}, {"host", "VARCHAR"}}
+		for _, oc := range c16OptCols {
+			if rapid.IntRange(0, 2).Draw(t, "hascol") > 0 {
+				cols = append(cols, oc)
+			}
+		}
+		colsOf[name] = cols
+	}
 	for _, db := range d.DBs {
 		for _, name := range d.Names {
 			m := &c16Meas{DB: db, Name: name}
-			cols := []qCol{{"id", "BIGINT"}, {"time", "TIMESTAMPTZ"}, {"host", "VARCHAR"}}
-			for _, oc := range c16OptCols {
-				if rapid.IntRange(0, 2).Draw(t, "hascol") > 0 {
-					cols = append(cols, oc)
-				}
-			}
+			cols := colsOf[name]
 			m.Cols = cols
 			var id int64
 			if db != "default" {
@@ -1029,7 +1037,7 @@ func (g *c16Gen) whereSubquery(srcs []c16Src, depth int) {
 	}
 }
 
-var c16CteNames = []string{"c", "recent", "Agg_1", "my cte", "joined"}
+var c16CteNames = []string{"c", "recent", "Agg_1", "my-cte", "joined"}
 
 // statement emits the whole statement: optional WITH list + main select.
 func (g *c16Gen) statement() {
@@ -1163,7 +1171,10 @@ func c16Schema(hdr string) string {
 // c16Check runs one query text under one header and compares with the
 // reference. Returns a failure description or "".
 func c16Check(e *qEnv, q c16Query, hdr string, label string) (string, string) {
-	ref := e.refQuery(q.SQL, c16Schema(hdr))
+	return c16CheckRef(e, q, hdr, label, e.refQuery(q.SQL, c16Schema(hdr)))
+}
+
+func c16CheckRef(e *qEnv, q c16Query, hdr string, label string, ref qResult) (string, string) {
 	if strings.HasPrefix(ref.Err, "HARNESS") {
 		return "harness", ref.Err
 	}
@@ -1174,11 +1185,16 @@ func c16Check(e *qEnv, q c16Query, hdr string, label string) (string, string) {
 	if arc.Status == 400 {
 		// rejected before execution: not an accepted query
 		verifkit.Class("rejected-400")
+		verifkit.Class("rejected-400:" + qShort(arc.Err))
 		return "", ""
 	}
 	switch {
 	case !arc.OK && !ref.OK:
 		verifkit.Class("both-fail")
+		verifkit.Class("both-fail:" + qShort(ref.Err))
+		if os.Getenv("C16_DEBUG") != "" {
+			fmt.Printf("BOTHFAIL hdr=%q sql=%q\n   ref=%q\n   arc=%q\n", hdr, q.SQL, ref.Err, arc.Err)
+		}
 		return "", ""
 	case !arc.OK && ref.OK:
 		return "arc-fails-" + label, fmt.Sprintf("arc status=%d err=%q; reference returned %d rows", arc.Status, arc.Err, len(ref.Rows))
@@ -1221,10 +1237,11 @@ func c16RunQuery(t *rapid.T, e *qEnv, d *c16Data, q c16Query) {
 		t.Fatalf("VERIF-FAIL class=C16/%s\nheader: %q\nsql: %q\n%s", class, hdr, q.SQL, detail)
 	}
 	e.h.InvalidateCaches()
-	if c, dt := c16Check(e, q, q.Hdr, "cold-cache"); c != "" {
+	ref := e.refQuery(q.SQL, c16Schema(q.Hdr))
+	if c, dt := c16CheckRef(e, q, q.Hdr, "cold-cache", ref); c != "" {
 		fail(c, dt, q.Hdr)
 	}
-	if c, dt := c16Check(e, q, q.Hdr, "warm-cache"); c != "" {
+	if c, dt := c16CheckRef(e, q, q.Hdr, "warm-cache", ref); c != "" {
 		fail(c, dt, q.Hdr)
 	}
 	if q.Unqual {
